@@ -156,33 +156,44 @@ extern "C"
     {
         waiter w;
         int id, kind;
+        int handler; // which of the two handlers the owner set last
         igris::dlist_base *head;
     };
-    static void dlg_handler(void *arg)
+    static void dlg_common(Dlg *d, int which)
     {
-        Dlg *d = (Dlg *)arg;
+        h_delegate_handler(d->id, which, d->handler);
         h_delegate_woken(d->id, (long)d->w.future);
         if (d->kind == 1) unwait_one(d->head, 500000 + d->id);
     }
+    static void dlg_handler(void *arg) { dlg_common((Dlg *)arg, 0); }
+    static void dlg_handler_b(void *arg) { dlg_common((Dlg *)arg, 1); }
     void *prog_delegate_new(int id, int kind)
     {
         Dlg *d = new Dlg();
         d->id = id;
         d->kind = kind;
+        d->handler = 0;
         d->head = nullptr;
         waiter_delegate_init(&d->w, dlg_handler, d);
         return d;
     }
     void prog_delegate_delete(void *d) { delete (Dlg *)d; }
-    void prog_delegate_park(void *dv, void *head, int prio)
+    // how: bit 0 = prioritised; bit 1 = the owner hands the wake-up to its other handler once the waiter stands in the line
+    // (waiter_delegate_init on a parked waiter, under the system lock: handler and object change, the place in the line stays)
+    void prog_delegate_park(void *dv, void *head, int how)
     {
         Dlg *d = (Dlg *)dv;
         igris::dlist_base *h = (igris::dlist_base *)head;
         system_lock();
-        h_delegate_parking(d->id, prio, head);
+        h_delegate_parking(d->id, how & 1, head);
         d->head = h;
-        if (prio) h->move_front(d->w.lnk);
+        if (how & 1) h->move_front(d->w.lnk);
         else h->move_back(d->w.lnk);
+        if (how & 2)
+        {
+            d->handler = !d->handler;
+            waiter_delegate_init(&d->w, d->handler ? dlg_handler_b : dlg_handler, d);
+        }
         system_unlock();
     }
 
